@@ -4,7 +4,9 @@ Engine E2 + exhaustive fault-schedule enumeration.  Three closed worlds, each a
 real ``Simulation`` with a real ``FaultSchedule``:
 
 * ``node``     plain entity P, generator entity G (short processes, one long
-               process and SimFuture waits in flight across every window edge),
+               process, SimFuture waits and Resource-grant waits in flight across every
+               window edge; the futures are resolved by a bystander / a keeper entity before,
+               strictly inside and after the windows; the value each process receives is logged),
                a ``QueuedResource`` server Q with a backlog, a bystander B;
                faults CrashNode / PauseNode on P, G, Q.
 * ``network``  ``Network`` A<->B, A<->C (bidirectional links), probes in every
@@ -32,7 +34,7 @@ from mc.harness import Entity, Event, Instant, Simulation, owned_random, pmap, r
 from happysimulator.components.network.link import NetworkLink
 from happysimulator.components.network.network import Network
 from happysimulator.components.queued_resource import QueuedResource
-from happysimulator.components.resource import Resource
+from happysimulator.components.resource import Grant, Resource
 from happysimulator.core.sim_future import SimFuture
 from happysimulator.distributions.constant import ConstantLatency
 from happysimulator.faults import (
@@ -210,13 +212,31 @@ class NodeCtx:
     def __init__(self):
         self.log = {"P": [], "G": [], "Q": [], "B": []}  # actor -> [(kind, t_ns, tag)]
         self.rx = {"P": [], "G": [], "Q": [], "B": []}  # emitter -> [(created_ns, received_ns, tag)]
+        # actor -> [(tag, t_ns, value)]: what a process parked on a SimFuture received when it resumed
+        self.values = {"P": [], "G": [], "Q": [], "B": []}
         self.futs = {}
         self.sink = None
+        # one-unit resources contended with the keeper K: RG by G's 'a<k>' processes, RQ by Q's item 1 of each batch
+        self.res = {"RG": Resource("RG", 1), "RQ": Resource("RQ", 1)}
 
     def emit(self, who, ent, tag):
         now = ent.now
         return Event(time=now, event_type="out", target=self.sink,
                      context={"metadata": {"from": who, "t": now.nanoseconds, "tag": tag}})
+
+
+def describe(value):
+    """JSON-able description of what `yield resource.acquire()` handed to the process."""
+    if isinstance(value, Grant):
+        return ("grant", value.amount)
+    return ("not-a-grant", repr(value))
+
+
+def node_expected(tag):
+    """the value a process with this tag must receive from its SimFuture (same as in the fault-free run)."""
+    if tag.startswith("f"):
+        return ("val", int(tag[1:]))
+    return ("grant", 1)
 
 
 class Plain(Entity):
@@ -247,6 +267,8 @@ class Gen(Entity):
             fut = SimFuture()
             self.ctx.futs[md["key"]] = fut
             return self._wait(tag, fut)
+        if event.event_type == "acq":
+            return self._acquire(tag)
         raise AssertionError(event.event_type)
 
     def _short(self, tag):
@@ -264,9 +286,22 @@ class Gen(Entity):
 
     def _wait(self, tag, fut):
         c = self.ctx
-        yield fut
+        value = yield fut
         c.log[self.name].append(("r", self.now.nanoseconds, tag))
+        c.values[self.name].append((tag, self.now.nanoseconds, value))
         return [c.emit(self.name, self, tag)]
+
+    def _acquire(self, tag):
+        """`grant = yield resource.acquire()`: K holds RG, so the grant arrives when K releases (k + 1.1875 s)."""
+        c = self.ctx
+        got = yield c.res["RG"].acquire(1)
+        c.log[self.name].append(("r", self.now.nanoseconds, tag))
+        c.values[self.name].append((tag, self.now.nanoseconds, describe(got)))
+        yield 0.0625
+        c.log[self.name].append(("r", self.now.nanoseconds, tag))
+        if isinstance(got, Grant):
+            got.release()
+        return None
 
 
 class QServer(QueuedResource):
@@ -284,7 +319,17 @@ class QServer(QueuedResource):
         c.log[self.name].append(("h", self.now.nanoseconds, tag))
         self.busy += 1
         try:
-            yield Q_SERVICE_S
+            if tag.endswith(".1"):
+                # the item in service across the edge k+1 works under a grant of RQ: K holds RQ until k + 1.0625 s,
+                # then 1 tick of work (fault-free completion at k + 1.125 s, like the other items' 5 ticks)
+                got = yield c.res["RQ"].acquire(1)
+                c.log[self.name].append(("r", self.now.nanoseconds, tag))
+                c.values[self.name].append((tag, self.now.nanoseconds, describe(got)))
+                yield 0.0625
+                if isinstance(got, Grant):
+                    got.release()
+            else:
+                yield Q_SERVICE_S
         finally:
             self.busy -= 1
         c.log[self.name].append(("r", self.now.nanoseconds, tag))
@@ -310,7 +355,7 @@ class Bystander(Entity):
         if event.event_type == "resolve":
             fut = c.futs.get(md["key"])
             if fut is not None and not fut.is_resolved:
-                fut.resolve(md["key"])
+                fut.resolve(("val", md["key"]))
             return None
         if event.event_type == "long":
             return self._long(tag, md["steps"])
@@ -324,17 +369,42 @@ class Bystander(Entity):
         return None
 
 
+class Keeper(Entity):
+    """Holds RG / RQ for a while every second (non-blocking try_acquire, so it never queues); its releases are
+    what resolves the acquire futures of G and Q - inside a window whenever the window opens at k+1.  It is
+    coupled to G and Q through the resources, so its own activity is not judged."""
+
+    def __init__(self, name, ctx):
+        super().__init__(name)
+        self.ctx = ctx
+        self.held = {}
+
+    def handle_event(self, event):
+        rn = event.context["metadata"]["res"]
+        if event.event_type == "take":
+            if rn not in self.held:
+                g = self.ctx.res[rn].try_acquire(1)
+                if g is not None:
+                    self.held[rn] = g
+        else:
+            g = self.held.pop(rn, None)
+            if g is not None:
+                g.release()
+        return None
+
+
 def _ev(t_ns, typ, target, **md):
     return Event(time=Instant(t_ns), event_type=typ, target=target, context={"metadata": md})
 
 
 def run_node(schedule):
     c = NodeCtx()
-    p, g, q, b = Plain("P", c), Gen("G", c), QServer("Q", c), Bystander("B", c)
+    p, g, q, b, kp = Plain("P", c), Gen("G", c), QServer("Q", c), Bystander("B", c), Keeper("K", c)
     c.sink = b
     fs = FaultSchedule()
     handles = install(schedule, fs)
-    sim = Simulation(entities=[p, g, q, b], fault_schedule=fs, end_time=Instant(END_S * T))
+    sim = Simulation(entities=[p, g, q, b, kp, c.res["RG"], c.res["RQ"]], fault_schedule=fs,
+                     end_time=Instant(END_S * T))
     after_construct(schedule, handles, sim)
     evs = []
     evs.append(_ev(tk(4), "long", g, tag="long", steps=11))  # resumes at 0.75, 1.25, ..., 5.75
@@ -349,8 +419,18 @@ def run_node(schedule):
         # SimFuture wait in flight across the edge k+1: parked at k+0.25, resolved by B at k+1.25
         evs.append(_ev(tk(16 * k + 4), "waitf", g, tag=f"f{k}", key=k))
         evs.append(_ev(tk(16 * k + 20), "resolve", b, tag=f"res{k}", key=k))
+        # grant wait in flight across the edge k+1: K holds RG during [k+0.3125, k+1.1875], G asks at k+0.375,
+        # gets the grant when K releases, works 1 tick and releases at k+1.25 (before K's next take at k+1.3125)
+        evs.append(_ev(tk(16 * k + 5), "take", kp, res="RG"))
+        evs.append(_ev(tk(16 * k + 6), "acq", g, tag=f"a{k}"))
+        evs.append(_ev(tk(16 * k + 19), "give", kp, res="RG"))
+        # K holds RQ during [k+0.75, k+1.0625]; Q's item 1 starts at k+0.8125 and waits for it
+        evs.append(_ev(tk(16 * k + 12), "take", kp, res="RQ"))
+        evs.append(_ev(tk(16 * k + 17), "give", kp, res="RQ"))
+    evs.sort(key=lambda e: e.time.nanoseconds)  # stable: same-instant events keep the order written above
     sim.schedule(evs)
     c.outcome = guarded_run(sim)
+    c.final_res = {rn: (r.capacity, r.available, r.waiters) for rn, r in c.res.items()}
     return c
 
 
@@ -373,6 +453,7 @@ def node_sent(x):
         elif x == "G":
             out.append((f"s{k}", t))
             out.append((f"f{k}", tk(16 * k + 4)))
+            out.append((f"a{k}", tk(16 * k + 6)))
         elif x == "Q":
             out += [(f"q{k}.{i}", t) for i in range(Q_BATCH)]
     if x == "G":
@@ -389,13 +470,24 @@ def node_oracle(schedule, c):
         if cancel is None:
             wins.setdefault(spec[1], []).append(win(spec))
     note = "" if c.outcome == "done" else f" [run outcome: {c.outcome}]"
+    if c.outcome.startswith("raised"):
+        # no handler of the fault-free workload raises; a fault schedule must not make the run blow up either
+        out.append((("run-raises", "simulation"), f"Simulation.run() raised under this fault schedule: {c.outcome}"))
     for x in ("P", "G", "Q", "B"):
         kind = NODE_KIND[x]
         ws = wins.get(x)
+        # "processing resumes from the restart time": a process that was waiting on a SimFuture (a reply, a Resource
+        # grant) and resumes - at whatever time - continues with exactly the value the future was resolved with
+        for (tag, t, value) in c.values[x]:
+            if value != node_expected(tag):
+                out.append((("process-resumes-with-wrong-value", kind),
+                            f"process {tag} of {x} resumed at {sec(t)} s from its SimFuture with {value!r} instead of "
+                            f"{node_expected(tag)!r} (the value the future was resolved with){note}"))
+                break
         if not ws:
             # "other entities are unaffected" / "cancelling a fault handle before activation prevents the fault entirely"
-            if c.log[x] != base.log[x] or c.rx[x] != base.rx[x]:
-                diff = _first_diff(c.log[x] + c.rx[x], base.log[x] + base.rx[x])
+            if c.log[x] != base.log[x] or c.rx[x] != base.rx[x] or c.values[x] != base.values[x]:
+                diff = _first_diff(c.log[x] + c.rx[x] + c.values[x], base.log[x] + base.rx[x] + base.values[x])
                 out.append((("untargeted-entity-differs-from-fault-free-run", kind),
                             f"{x} is targeted by no uncancelled fault, yet its activity differs from the "
                             f"fault-free run: {diff}{note}"))
@@ -472,11 +564,12 @@ def _first_diff(a, b):
 
 
 def node_obs(c):
-    return digest((c.log, c.rx, c.outcome))
+    return digest((c.log, c.rx, c.values, c.final_res, c.outcome))
 
 
 def node_trans(c):
-    return sum(len(v) for v in c.log.values()) + sum(len(v) for v in c.rx.values())
+    return (sum(len(v) for v in c.log.values()) + sum(len(v) for v in c.rx.values())
+            + sum(len(v) for v in c.values.values()))
 
 
 def node_atoms(cancel_modes):
@@ -579,6 +672,8 @@ def net_oracle(schedule, c, mode):
     live = [spec for spec, cancel in schedule if cancel is None]
     note = "" if c.outcome == "done" else f" [run outcome: {c.outcome}]"
     done = set()
+    if c.outcome.startswith("raised"):
+        out.append((("run-raises", "simulation"), f"Simulation.run() raised under this fault schedule: {c.outcome}"))
 
     short = {"NetworkPartition": "partition", "InjectPacketLoss": "loss", "InjectLatency": "latency"}
 
@@ -814,6 +909,8 @@ def res_oracle(schedule, c, workload):
     out = []
     base = res_base(workload)
     note = "" if c.outcome == "done" else f" [run outcome: {c.outcome}]"
+    if c.outcome.startswith("raised"):
+        out.append((("run-raises", "simulation"), f"Simulation.run() raised under this fault schedule: {c.outcome}"))
     live = {}
     for spec, cancel in schedule:
         if cancel is None:
@@ -1081,12 +1178,14 @@ def replay(data):
     if world == "node":
         base = node_base()
         shown = [x for x in ("P", "G", "Q", "B")
-                 if any(spec[1] == x for spec, _c in schedule) or c.log[x] != base.log[x] or c.rx[x] != base.rx[x]]
+                 if any(spec[1] == x for spec, _c in schedule) or c.log[x] != base.log[x] or c.rx[x] != base.rx[x]
+                 or c.values[x] != base.values[x]]
         print(f"  (entities identical to the fault-free run are not listed; listed: {shown})")
         rows = []
         for x in shown:
             rows += [(e[1], f"{x} {'handler' if e[0] == 'h' else 'resume '} {e[2]}") for e in c.log[x]]
             rows += [(ct, f"{x} emitted {tag} (received {sec(rt)}s)") for (ct, rt, tag) in c.rx[x]]
+            rows += [(t, f"{x} process {tag} received {v!r} from its SimFuture") for (tag, t, v) in c.values[x]]
         for t, txt in sorted(rows, key=lambda r: r[0]):
             print(f"  {sec(t):8.4f}s {txt}")
     elif world == "network":
